@@ -5,6 +5,7 @@ import (
 	"encoding/json"
 	"errors"
 	"fmt"
+	"math"
 	"os"
 	"strings"
 	"time"
@@ -47,6 +48,8 @@ func openHist(filename string) (list []Item, err error) {
 	}
 
 	scanner := bufio.NewScanner(file)
+	scanner.Buffer(make([]byte, 0, bufio.MaxScanTokenSize), math.MaxInt)
+
 	for scanner.Scan() {
 		var item Item
 
